@@ -1,1 +1,38 @@
-//! Harness contracts for C16.
+//! Harness contracts for C16: a capped token whose cap can be re-set (the library documents that
+//! `set_cap` may lower the cap below the current supply; mints checked with `check_cap` must then fail).
+
+pub mod ft_capped {
+    use soroban_sdk::{contract, contractimpl, Address, Env, MuxedAddress, String};
+    use stellar_tokens::fungible::{
+        burnable::FungibleBurnable,
+        capped::{check_cap, query_cap, set_cap},
+        Base, FungibleToken,
+    };
+
+    #[contract]
+    pub struct FtCapped;
+
+    #[contractimpl]
+    impl FtCapped {
+        pub fn __constructor(e: &Env, cap: i128) {
+            Base::set_metadata(e, 7, String::from_str(e, "Capped"), String::from_str(e, "CAP"));
+            set_cap(e, cap);
+        }
+        pub fn set_cap(e: &Env, cap: i128) {
+            set_cap(e, cap);
+        }
+        pub fn cap(e: &Env) -> i128 {
+            query_cap(e)
+        }
+        pub fn mint(e: &Env, to: Address, amount: i128) {
+            check_cap(e, amount);
+            Base::mint(e, &to, amount);
+        }
+    }
+    #[contractimpl(contracttrait)]
+    impl FungibleToken for FtCapped {
+        type ContractType = Base;
+    }
+    #[contractimpl(contracttrait)]
+    impl FungibleBurnable for FtCapped {}
+}
